@@ -427,11 +427,18 @@ let ser_handler (args : string list) : string =
         if not spec_wf then "?spec-not-one-item"
         else if opt_in_opt sh then "-"
         else Printf.sprintf "%s;ok:%s@%d" (hex_of_bytes spec_bytes) vtext (List.length spec_bytes) in
+      (* F= the complement of finding F12 evaluated by the Coq predicate (Spec/SerdeAny.v f12_free; checks/C17.py
+         compares it with its own f12_hit on every case); H= every hypothesis of C17_roundtrip_any holds for this
+         case (then the model must have read the value back: cross_check) *)
+      let free = f12_free sh value in
+      let hyp = shape_ok_any sh && not (opt_in_opt sh) && untagged_disjoint sh && conf_any sh value && free && sval_ok value in
+      let aux = Printf.sprintf "\tF=%s\tH=%s\tD=%s" (if free then "free" else "hit") (if hyp then "1" else "0")
+                  (if shape_ok_any sh && untagged_disjoint sh then "1" else "0") in
       (match ser_s cfg_full value with
-       | None -> with_spec "refused;-" spec
+       | None -> with_spec "refused;-" spec ^ aux
        | Some cs ->
            let bs = flat cs in
-           with_spec (Printf.sprintf "%s;%s" (hex_of_bytes bs) (show_run (show_s sh) (de_auto cfg_full sh (start bs)))) spec)
+           with_spec (Printf.sprintf "%s;%s" (hex_of_bytes bs) (show_run (show_s sh) (de_auto cfg_full sh (start bs)))) spec ^ aux)
   | _ -> "?bad-SER"
 
 (* DE <type> <hex>: deserialise arbitrary bytes *)
